@@ -82,6 +82,9 @@ Families ==
                    h |-> SetRegion(m) \o SetOrigin(d) \o PlaceWrap(g[1], m, d, y, x, 122)] :
                    m \in Regions(g[2]), d \in BOOLEAN,
                    y \in 0..(g[2] - 1), x \in 0..g[1] } : g \in Geoms }
+    [] Model = "C18all" ->
+         \* every width 1..140 with its power-on stops, cursor at every column incl. pending wrap
+         UNION { { [c |-> g[1], l |-> g[2], h |-> PlaceWrap(g[1], <<>>, FALSE, 0, x, 122)] : x \in 0..g[1] } : g \in Geoms }
     [] Model = "C18w" ->
          \* widths up to 140, default stops edited by HTS / TBC at representative columns, then a width change
          UNION { { [c |-> g[1], l |-> g[2],
@@ -165,6 +168,8 @@ GThorough == GTiny \cup GSmall \cup GMore
 GRows  == { <<3, 1>>, <<3, 2>>, <<3, 3>>, <<3, 4>>, <<2, 5>> }
 GRowsQuick == { <<3, 1>>, <<3, 2>>, <<3, 3>>, <<2, 4>> }
 GWide  == { <<9, 1>>, <<17, 1>>, <<20, 2>>, <<80, 1>>, <<132, 1>>, <<140, 1>> }
+GAllW  == { <<w, 1>> : w \in 1..140 }
+GAllWQuick == { <<w, 1>> : w \in {1, 2, 7, 8, 9, 10, 15, 16, 17, 24, 25, 33, 40, 64, 65, 80, 81, 100, 132, 133, 139, 140} }
 GWideQuick == { <<9, 1>>, <<20, 1>>, <<80, 1>> }
 GCols  == { <<1, 2>>, <<2, 2>>, <<3, 2>>, <<4, 2>>, <<5, 2>>, <<6, 2>> }
 
@@ -184,6 +189,7 @@ MoveEvents(s) ==
   \cup { Ev("bs", <<>>), Ev("cr", <<>>) }
 Events(s) ==
   CASE Model = "C05" -> MoveEvents(s)
+    [] Model = "C18all" -> { Ev("ht", <<>>) }
     [] Model \in {"C18", "C18w"} -> { Ev("ht", <<>>), Ev("hts", <<>>) } \cup { Ev("tbc", <<n>>) : n \in {-1, 0, 1, 2, 3, 4, 9999} }
     [] Model = "C06" -> { Ev(op, <<>>) : op \in {"ind", "lf", "ri"} }
                         \cup { Ev(op, <<n>>) : op \in {"il", "dl"}, n \in Params(s.L) }
@@ -212,7 +218,7 @@ Events(s) ==
 
 Decl(s, e, t) ==
   CASE Model = "C05" -> Decl_C05(s, e, t)
-    [] Model \in {"C18", "C18w"} -> Decl_C18(s, e, t)
+    [] Model \in {"C18", "C18w", "C18all"} -> Decl_C18(s, e, t)
     [] Model = "C06" -> Decl_C06(s, e, t)
     [] Model = "C07" -> Decl_C07(s, e, t)
     [] Model = "C13" -> Decl_C13(s, e, t)
@@ -249,7 +255,7 @@ Next ==
 Spec == Init /\ [][Next]_vars
 
 \* the property a model belongs to
-PropOf == IF Model = "C18w" THEN "C18" ELSE Model
+PropOf == IF Model \in {"C18w", "C18all"} THEN "C18" ELSE Model
 
 \* Spec |= P : the declarative reading holds on every transition of the family
 Holds == phase = 1 => Decl(pre, ev, post)
